@@ -7,4 +7,4 @@ ASSUMPTIONS = _bc.ASSUMPTIONS
 
 
 def run(ck):
-    _bc.run_bc(ck, "c07", set("c20_responses c07_pubrec_after_store c07_no_publish_after_release c07_single_ack c07_pubrel_answered".split()))
+    _bc.run_bc(ck, "c07", set("c20_responses c07_pubrec_after_store c07_no_publish_after_release c07_single_ack c07_pubrel_answered c20_tokens".split()))
